@@ -60,7 +60,7 @@ XXts(ev) == LET a == ev.a
                 F2(x) == LookF(ev.tab, 2, x)
             IN IF Len(a.key) \notin {32, 64} \/ Len(a.tweak) # 16 \/ Len(a.d) < 16 THEN AnyX
                ELSE ValX(V(ev, IF ev.op = "enc" THEN XtsEnc(F1, F2, a.tweak, a.d) ELSE XtsDec(G1, F2, a.tweak, a.d)))
-CcmDomain(a) == AesKeyOk(Len(a.key)) /\ Len(a.nonce) \in 7..13 /\ EffTl(a) \in {4, 6, 8, 10, 12, 14, 16} /\ Len(EffAad(a)) < 65280
+CcmDomain(a) == AesKeyOk(Len(a.key)) /\ Len(a.nonce) \in 7..13 /\ EffTl(a) \in {4, 6, 8, 10, 12, 14, 16}
 XCcm(ev) == LET a == ev.a
                 F(x) == LookF(ev.tab, 1, x)
             IN IF ~CcmDomain(a) THEN AnyX
@@ -131,10 +131,35 @@ RoundTrip(C, st, ev) == /\ ev.out.k = "ret" /\ Len(ev.out.v) >= Len(st.m) /\ Tak
                         /\ IF C.fam = "cbc" THEN Len(ev.out.v) = AlignUp(Len(st.m), 16) /\ AllZero(Drop(ev.out.v, Len(st.m)))
                                             ELSE Len(ev.out.v) = Len(st.m)
 
+\* ------------------------------------------------------------------ the concrete call is an instance of the abstract case it claims to instantiate
+IvKindOk(kind, a) == CASE kind = "default" -> ~a.ivg
+                       [] kind \in {"given", "other"} -> a.ivg /\ Len(a.iv) = 16
+                       [] kind = "short" -> a.ivg /\ Len(a.iv) = 8
+                       [] kind = "long" -> a.ivg /\ Len(a.iv) = 17
+                       [] OTHER -> TRUE
+Concrete(C, ev) ==
+    LET p == C.p
+        a == ev.a
+    IN CASE C.fam \in {"ecb", "ctr", "xts", "kw"} /\ ev.op = "enc" -> Len(a.key) = p.kl /\ Len(a.d) = p.ml
+         [] C.fam = "cbc" /\ ev.op = "enc" -> Len(a.key) = p.kl /\ Len(a.d) = p.ml /\ IvKindOk(p.ive, a)
+         [] C.fam = "cbc" /\ ev.op = "dec" -> Len(a.key) = p.kl /\ IvKindOk(p.ivd, a)
+         [] C.fam = "ccm" /\ ev.op = "enc" -> /\ Len(a.key) = p.kl /\ Len(a.d) = p.ml /\ Len(a.nonce) = p.nl
+                                              /\ a.tlg = (p.tag # 0) /\ (a.tlg => a.tl = p.tag) /\ a.aadg = (p.aad # "default")
+         [] C.fam = "cmac" -> Len(a.key) = p.kl /\ Len(a.d) = p.ml
+         [] C.fam = "hmac" -> Len(a.key) = p.kl /\ Len(a.d) = p.ml /\ a.algg = (p.alg # "default") /\ (a.algg => a.alg = p.alg)
+         [] C.fam = "hash" -> /\ a.algg = (p.alg # "default") /\ (a.algg => a.alg = p.alg) /\ Len(a.chunks) = Len(p.chunks)
+                              /\ \A i \in 1..Len(a.chunks) : a.chunks[i].t = p.chunks[i].t /\ Len(a.chunks[i].v) = p.chunks[i].n /\ ChunkOk(a.chunks[i])
+         [] C.fam = "hkdf" -> Len(a.salt) = p.sl /\ Len(a.ikm) = p.il /\ Len(a.info) = p.fl /\ a.L = p.L
+         [] C.fam = "ks" -> a.which = p.which /\ Len(a.key) = p.kl /\ (p.which = "otfad" => Len(a.inp) = p.il)
+         [] C.fam = "sb31" /\ ~a.link -> Len(a.key) = p.kl /\ a.bits = p.bits /\ a.rights = p.rights /\ a.mode = (IF p.api = "blk" THEN "blk" ELSE "kdk")
+         [] C.fam = "crc" -> a.alg = p.alg /\ a.d = p.msg
+         [] OTHER -> TRUE
+
 \* ------------------------------------------------------------------ the verdict on one event
 Judge(C, st, ev) ==
     LET X == Expect(C, ev) IN
-    IF Linked(C, ev) /\ ~LinkOk(C, st, ev) THEN "link"                                    \* harness error
+    IF ~Concrete(C, ev) THEN "concretise"                                                  \* harness error
+    ELSE IF Linked(C, ev) /\ ~LinkOk(C, st, ev) THEN "link"                                \* harness error
     ELSE IF ev.full /\ X.k \in {"val", "reject"} /\ ev.ref # X.r THEN "oracle"              \* reference implementation and spec disagree (harness error)
     ELSE IF X.k = "any" THEN "ok"
     ELSE IF X.k = "err" THEN (IF ev.out.k = "err" THEN "ok" ELSE "class")
